@@ -31,6 +31,15 @@ Theorem C16_frames_disjoint : forall x, unframe_enc (frame_hmac x) = None /\ str
 Proof. intros x. split; [exact (hmac_frame_is_not_enc x) | exact (enc_frame_is_not_hmac x)]. Qed.
 Print Assumptions C16_frames_disjoint.
 
+(* the encoding is RawURLEncoding: URL-safe alphabet only (hence no '=' padding, code 61) and ceil(4n/3) characters *)
+Theorem C16_b64url_alphabet : forall bs, Forall (fun c => url_char c = true) (encode bs) /\ ~ In 61%N (encode bs).
+Proof. intros bs. split; [exact (encode_alphabet bs) | exact (encode_no_padding bs)]. Qed.
+Print Assumptions C16_b64url_alphabet.
+
+Theorem C16_b64url_length : forall bs, 3 * length (encode bs) = 4 * length bs + Nat.modulo (3 - Nat.modulo (length bs) 3) 3.
+Proof. exact encode_length. Qed.
+Print Assumptions C16_b64url_length.
+
 (* decrypt_roundtrip: for every filter state, every event (with or without per-event wrapper info), every plaintext —
    any list of bytes, empty and non-UTF-8 included — and every AEAD randomness: the value the filter produces unframes
    and decrypts, with the wrapper in force for that event, to exactly the plaintext *)
